@@ -17,7 +17,7 @@ def run(prog, rep, tier):
     r = r_scope.s1(prog)
     apply(rep, "S1", "every sub-expression context opens a scope", (r[0], r[1]), 10)
     rep.extra["S1_construction_sites"] = r[2]
-    if r[2] < 25:
+    if r[2] < 25 and not getattr(r, "broken", None):
         from zw import Broken
         raise Broken("S1 saw %d construction sites, below the floor 25" % r[2])
     apply(rep, "S2", "readers clone bound values", r_scope.s2(prog), 3)
